@@ -5,18 +5,18 @@ import glob, json, os, re, shutil, subprocess, sys, time
 # (statements only + Print Assumptions), the generator kind and the case counts per tier.
 POOL_BASE = ['Base.v', 'Value.v', 'Seq.v', 'Coll.v', 'Pool.v']
 PROPS = {
-    'C01': dict(kind='pool', files=POOL_BASE + ['ListImpl.v', 'ListMachine.v', 'SeqProofs.v', 'C01.v'], quick=300, thorough=4000),
-    'C02': dict(kind='pool', files=POOL_BASE + ['SetProofs.v', 'C02.v'], quick=300, thorough=4000),
-    'C03': dict(kind='pool', files=POOL_BASE + ['AssocProofs.v', 'C03.v'], quick=300, thorough=4000),
-    'C09': dict(kind='pool', files=POOL_BASE + ['Sorter.v', 'SorterProofs.v', 'C09.v'], quick=300, thorough=4000),
-    'C14': dict(kind='pool', files=POOL_BASE + ['AssocProofs.v', 'C14.v'], quick=300, thorough=4000),
-    'C15': dict(kind='pool', files=POOL_BASE + ['SetProofs.v', 'C15.v'], quick=300, thorough=4000),
-    'C16': dict(kind='pool', files=POOL_BASE + ['AssocProofs.v', 'C16.v'], quick=300, thorough=4000),
-    'C07': dict(kind='collate', files=['Base.v', 'Sorter.v', 'Value.v', 'CollateProofs.v', 'C07.v'], quick=400, thorough=8000),
-    'C08': dict(kind='collate', files=['Base.v', 'Sorter.v', 'Value.v', 'CollateProofs.v', 'C08.v'], quick=400, thorough=8000),
-    'C13': dict(kind='pool', files=POOL_BASE + ['StackProofs.v', 'C13.v'], quick=300, thorough=4000),
-    'C17': dict(kind='pool', files=POOL_BASE + ['IterProofs.v', 'C17.v'], quick=300, thorough=4000),
-    'C18': dict(kind='pool', files=POOL_BASE + ['PoolFrame.v', 'C18.v'], quick=300, thorough=4000),
+    'C01': dict(kind='pool', files=POOL_BASE + ['ListImpl.v', 'ListMachine.v', 'SeqProofs.v', 'C01.v'], quick=300, thorough=12000),
+    'C02': dict(kind='pool', files=POOL_BASE + ['SetProofs.v', 'C02.v'], quick=300, thorough=12000),
+    'C03': dict(kind='pool', files=POOL_BASE + ['AssocProofs.v', 'C03.v'], quick=300, thorough=12000),
+    'C09': dict(kind='pool', files=POOL_BASE + ['Sorter.v', 'SorterProofs.v', 'C09.v'], quick=300, thorough=12000),
+    'C14': dict(kind='pool', files=POOL_BASE + ['AssocProofs.v', 'C14.v'], quick=300, thorough=12000),
+    'C15': dict(kind='pool', files=POOL_BASE + ['SetProofs.v', 'C15.v'], quick=300, thorough=12000),
+    'C16': dict(kind='pool', files=POOL_BASE + ['AssocProofs.v', 'C16.v'], quick=300, thorough=12000),
+    'C07': dict(kind='collate', files=['Base.v', 'Sorter.v', 'Value.v', 'CollateProofs.v', 'C07.v'], quick=400, thorough=20000),
+    'C08': dict(kind='collate', files=['Base.v', 'Sorter.v', 'Value.v', 'CollateProofs.v', 'C08.v'], quick=400, thorough=20000),
+    'C13': dict(kind='pool', files=POOL_BASE + ['StackProofs.v', 'C13.v'], quick=300, thorough=12000),
+    'C17': dict(kind='pool', files=POOL_BASE + ['IterProofs.v', 'C17.v'], quick=300, thorough=12000),
+    'C18': dict(kind='pool', files=POOL_BASE + ['PoolFrame.v', 'C18.v'], quick=300, thorough=12000),
 }
 
 # further properties are configured by one JSON file each in tools/props.d/ (same keys)
